@@ -566,6 +566,23 @@ pub fn c13(cx: &Ctx, rep: &mut Report) {
                 }
             }
         }
+        // the constant-time test entry point (feature `dudect`) is a public call too: key generation + signing with the
+        // rejection tests neutralised, for a counter family of RNG answers
+        for i in 0..cx.tier.pick(96u64, 1024) {
+            rep.count("dudect_keygen_sign_with_rng", 1);
+            let d = alpha::counter32(cx.seed, "c13-dudect", i);
+            let mut rng = ScriptRng::oks(&[&d, &d]);
+            if let Err(pn) = (api.dudect)(&mut rng, b"m") {
+                let what = pn.0.split('@').next().unwrap_or("").trim();
+                let slug: String = what.chars().map(|c| if c.is_ascii_alphanumeric() { c } else { '-' }).collect();
+                rep.outcome("panic", 1);
+                rep.violate(Violation {
+                    key: format!("c13:dudect-panic:{slug}"),
+                    summary: format!("ML-DSA-{}: dudect_keygen_sign_with_rng (constant-time test mode) panicked for RNG answer {}: {}", p.id, hex(&d), pn.0),
+                    replay: json!({"engine":"api","set":p.id,"ops":[{"op":"dudect","rng":hex(&d),"msg":"6d"}]}),
+                });
+            }
+        }
         // signing with long messages / every context length class through an honest key
         if let Ok(Ok(sk)) = (api.sk_from_bytes)(&base.sk) {
             for (m, c, mode) in [(vec![0u8; 1 << 20], vec![], Mode::Pure), (vec![0u8; 1 << 20], alpha::ctx(255), Mode::Sha256), (vec![], vec![0u8; 65_536], Mode::Pure), (vec![], alpha::ctx(256), Mode::Shake128)] {
